@@ -125,11 +125,13 @@ def make_interface(prop):
             return {}
         step = r["violations"][0]["step"]
         sig = r["violations"][0]["sig"]
-        rows = [row for j, rs in sorted(r.get("entries_by_step", {}).items()) if int(j) <= step for row in rs]
+        rows = [row for j, rs in sorted(r.get("entries_by_step", {}).items(), key=lambda kv: int(kv[0])) if int(j) <= step for row in rs]
+        # the failing step's own entries first, then the nearest earlier steps (the cap must not cut off the entries that matter)
+        rows.sort(key=lambda row: -int(row["step"]))
         culprits = []
         tried = 0
         for row in rows:
-            if tried >= 60:
+            if tried >= 120:
                 break
             tried += 1
             s = dict(mscen, knockout={"step": row["step"], "obj": row["obj"], "path": row["path"], "name": row["name"]})
